@@ -40,6 +40,7 @@ def register(reg):
     A("JsonConfigFormat", pretty="any")
     A("YamlConfigFormat", root_key="opt:str")
     A("XmlConfigFormat", root_tag="str")
+    A("Element", tag="any", attrib="ref:dict", text="opt:str")
     reg.content = {
         ("Schema", "_fields"): {"k": "str", "v": "ref:BaseField", "link": "_key"},
         ("Config", "_fields"): {"k": "str", "v": "ref:BaseField", "link": "_key"},
